@@ -43,6 +43,8 @@ type Contract struct {
 	Pure      bool
 	MayPanic  bool
 	NoSafety  bool
+	DynCallsFrame bool
+	TrustedFrame bool // `assigns` is assumed at call sites; the per-write frame obligations of the body are not generated
 	Trusted   bool // contract is assumed, body not verified (listed in evidence)
 	Fresh     bool // result is freshly allocated
 	Bounded   int
@@ -100,7 +102,7 @@ type Axiom struct {
 var clauseKeywords = map[string]bool{
 	"func": true, "ext": true, "spec": true, "abstract": true, "axiom": true, "prop": true,
 	"requires": true, "ensures": true, "assigns": true, "loop": true, "call": true, "pure": true,
-	"may_panic": true, "nosafety": true, "trusted": true, "bounded": true, "fresh": true, "emits": true, "note": true, "sets": true, "ghost": true, "readonly": true,
+	"may_panic": true, "nosafety": true, "trusted": true, "bounded": true, "fresh": true, "emits": true, "note": true, "sets": true, "ghost": true, "readonly": true, "trusted_frame": true, "dyncalls_frame": true,
 }
 
 var labelRe = regexp.MustCompile(`^@([A-Za-z0-9_\-./]+)\s+`)
@@ -216,8 +218,23 @@ func (e *Engine) readContractFile(path, pkgKey string) error {
 				return err
 			}
 			sf.Pkg = pkgKey
-			if old, dup := e.specs[sf.Name]; dup && (old.Src != sf.Src || (old.Pkg != sf.Pkg && false)) {
-				return fmt.Errorf("%s: spec function %s redefined differently (first at %s)", where, sf.Name, old.Where)
+			if pkgKey != "" {
+				// package-local spec function (the twin command packages define the same names)
+				if e.pkgSpecs == nil {
+					e.pkgSpecs = map[string]map[string]*SpecFunc{}
+				}
+				if e.pkgSpecs[pkgKey] == nil {
+					e.pkgSpecs[pkgKey] = map[string]*SpecFunc{}
+				}
+				if _, dup := e.pkgSpecs[pkgKey][sf.Name]; dup {
+					return fmt.Errorf("%s: duplicate spec function %s", where, sf.Name)
+				}
+				e.pkgSpecs[pkgKey][sf.Name] = sf
+				cur = nil
+				continue
+			}
+			if old, dup := e.specs[sf.Name]; dup {
+				return fmt.Errorf("%s: spec function %s redefined (first at %s)", where, sf.Name, old.Where)
 			}
 			e.specs[sf.Name] = sf
 			cur = nil
@@ -341,6 +358,12 @@ func (e *Engine) readContractFile(path, pkgKey string) error {
 			case "pure":
 				cur.Pure = true
 				cur.HasAssign = true
+			case "dyncalls_frame":
+				cur.DynCallsFrame = true
+				cur.Notes = append(cur.Notes, "calls through function values are assumed not to write state visible here: "+rest)
+			case "trusted_frame":
+				cur.TrustedFrame = true
+				cur.Notes = append(cur.Notes, "frame assumed, not verified: "+rest)
 			case "nosafety":
 				cur.NoSafety = true
 				cur.Notes = append(cur.Notes, "safety obligations not generated: "+rest)
